@@ -229,7 +229,7 @@ fn gen_case(t: &mut Tape) -> Pair {
 pub fn run(r: &mut Runner) -> &'static str {
     r.rule = "inputs closed BY CONSTRUCTION: CRLF- (or CR+byte-) terminated lines with 0-6 fields for TCP4 / TCP6 / UNKNOWN / bad protocols; every prefix of a valid line + CR + one byte (LF, stray byte, any byte); CR-free inputs of \
               100-120 bytes (valid-looking and random); closed one-step mutants and token sequences; plus a trailer for the frozen-window relation. oracle: is_complete() on try_from(&[u8]) and, for UTF-8 inputs, try_from(&str) and both \
-              FromStr impls; for CR-closed x: parse(x ++ t) == parse(x). Exhaustive sub-stage: token sequences closed by CRLF / CR+X. non-trivial = closed inputs starting with PROXY, or CR-free inputs of exactly 107 / 108 bytes; distinct by SipHash"
+              FromStr impls; for CR-closed x: parse(x ++ t) == parse(x). Exhaustive sub-stage: token sequences closed by CRLF / CR+X. non-trivial = closed inputs starting with PROXY, or CR-free inputs of exactly 107 / 108 bytes; distinct by SipHash Added later: multi-byte text around 107 bytes, the frozen window on the text routes, the verdict through the auto-detecting entry point."
         .into();
     let n = r.n(300_000, 8_000_000);
     r.random("c18.closed", n, 200, &gen_case, &judge);
